@@ -224,6 +224,47 @@ def check_typed_results(P, ctx):
     ctx.floor(rule, 9)
 
 
+def custom_dealloc_guarded(P, fname):
+    """every free in a type-specific Alloc.dealloc function is dominated by the refusal of
+    static, stack and embedded objects"""
+    fn = P.fn(fname)
+    g = P.cfg(fn)
+    frees = [n for n in g.live() if n['expr'] is not None and any(ir.callee_name(c) in ('free', 'realloc') for c in ir.calls(n['expr']))]
+    from .rules_c16 import alloc_guards
+    for n in frees:
+        for cls in ('AllocStatic', 'AllocStack', 'AllocData'):
+            if dominated_by_guard(g, n['id'], alloc_guards(g, cls), None) is None:
+                return False, n, cls
+    return True, None, None
+
+
+def check_custom_dealloc(P, ctx, Ppos):
+    rule = 'C19.custom-dealloc'
+    # dealloc() dispatches to a type's own Alloc.dealloc *before* its allocation-class tests, so such a function must carry them itself
+    fn = P.fn('dealloc')
+    g = P.cfg(fn)
+    ind = [n for n in g.live() if n['expr'] is not None and any(ir.callee_name(c) is None and ir.top_nocast(c[1])[0] == 'arrow' and ir.top_nocast(c[1])[2] == 'dealloc' for c in ir.calls(n['expr']))]
+    from .rules_c16 import alloc_guards
+    guarded_dispatch = bool(ind) and all(dominated_by_guard(g, ind[0]['id'], alloc_guards(g, cls), None) is not None for cls in ('AllocStatic', 'AllocStack', 'AllocData'))
+    insts = P.slots_of_class('Alloc', 'dealloc')
+    insts = [(T, f) for (T, f) in insts if P.types[T]['unit'].startswith('src/')]
+    for T, f in insts:
+        ok, n, cls = custom_dealloc_guarded(P, f)
+        ctx.check(ok or guarded_dispatch, rule, '%s.Alloc.dealloc' % T, site(P.fn(f)),
+                  'dealloc hands the object to this type-specific release function before testing its allocation class, so the function must itself '
+                  'refuse static, stack and container-embedded objects before it frees anything',
+                  None if ok else ['free at %s:%s is not dominated by the %s refusal' % (P.fn(f)['file'], n['line'], cls)])
+    ctx.proved(rule, 'dispatch-order', site(fn), 'dealloc dispatches to Alloc.dealloc %s its own allocation-class tests (%d library types declare one)' % (
+        'after' if guarded_dispatch else 'before', len(insts)))
+    # the rule has no instance on today's tree: keep it honest with a positive example that must be refuted
+    okp, n, cls = custom_dealloc_guarded(Ppos, 'PosThing_Dealloc')
+    if okp:
+        ctx.undecided(rule, 'positive-example', 'witness/positive/c19_dealloc.c', 'the unguarded example release function is no longer recognised as a violation: the rule is blind')
+    else:
+        ctx.proved(rule, 'positive-example', 'witness/positive/c19_dealloc.c', 'the rule fires on the unguarded example (missing %s refusal)' % cls)
+    ctx.floor(rule, 2)
+
+
 def run(ctx, load):
     P = load(None, 'default', [WITNESS])
     ctx.stats['units'] = set(k for k in P.units if k.startswith('src/')) | {'witness/macros.c', 'include/Cello.h'}
@@ -232,6 +273,17 @@ def run(ctx, load):
     check_pointer_arith(P, ctx)
     check_typed_results(P, ctx)
     # guards: String and Tuple buffers, dealloc
+    Ppos = load(['src/Exception.c'], 'default', ['/verif/witness/positive/c19_dealloc.c'])
+    ctx.config = 'default'
+    check_custom_dealloc(P, ctx, Ppos)
+    from .rules_c05 import check_fresh_slot
+    from .effects import Effects
+    before = len(ctx.obs)
+    check_fresh_slot(P, Effects(P), ctx)
+    for o in ctx.obs[before:]:
+        o['rule'] = 'C19.element-stamped'
+    ctx.floors.pop(('C05.fresh-slot', ctx.config), None)
+    ctx.floor('C19.element-stamped', 5)
     n1 = check_heap_only(P, ctx, 'src/String.c', 'val', 'C19.guards', 'String')
     n2 = check_heap_only(P, ctx, 'src/Tuple.c', 'items', 'C19.guards', 'Tuple')
     ctx.floor('C19.guards', 24)
